@@ -272,4 +272,52 @@ def run(rep: Report, tier: str) -> None:
                             f"column when the same table is given with its columns in another order"))
     rep.floor("R33.4 header accesses scanned", nhdr, 8)
     rep.analysed = dict(stats, loader_functions=nfun)
+    # ---- R33.7: additive aggregates do not depend on the order the rows are met in (shared with C15 R15.4) ----
+    rep.rule("R33.7", "SUM / AVG templates accumulate in the exact type of the operand (no cast to DOUBLE/FLOAT inside the aggregate): float addition is order-dependent")
+    from sa.checks.c15 import exact_accumulation as _exact
+    _exact(P, rep, "R33.7")
+    # ---- R33.8: running windows over a time series are ordered totally: partition + order keys = the identifiers of the OPERAND ----
+    rep.rule("R33.8", "flow_to_stock / stock_to_flow evaluated on an operand with two non-time identifiers inside a statement whose result keeps only one of them: every OVER clause "
+                      "partitions by all non-time identifiers of the operand and orders by the time identifier - with fewer keys several series share a partition, the order has ties "
+                      "and the running sum follows the physical row order")
+    import re as _re8
+    from sa import structmodel as _sm8
+    from sa.e6 import ClassVal as _CV8, Interp as _I8, Raised as _R8, Unmodelled as _U8
+    _M8 = _sm8.Model(P)
+    f8 = P.func(_sm8.TRQ + "._visit_flow_stock")
+    ftok = _I8(P).eval(ast.parse("tokens.FLOW_TO_STOCK", mode="eval").body, {}, f8)
+    stok = _I8(P).eval(ast.parse("tokens.STOCK_TO_FLOW", mode="eval").body, {}, f8)
+    n8 = 0
+    for op8 in (ftok, stok):
+        for ttype in ("Date", "TimePeriod"):
+            ds8 = _M8.ds("DS_1", ["Id_1", "Id_2", "T"], ["Me_1"])
+            ds8.components["T"].data_type = _CV8("vtlengine.DataTypes." + ttype)
+            out8 = _M8.ds("DS_r", ["Id_1", "T"], ["Me_1"])
+            out8.components["T"].data_type = _CV8("vtlengine.DataTypes." + ttype)
+            me8 = _sm8.MTranspiler()
+            ext8 = {"self._get_dataset_structure": lambda n: ds8, "self._get_dataset_sql": lambda n: '"DS_1"', "self._get_output_dataset": lambda: out8,
+                    "self._resolve_time_identifier": lambda d, o: ("T", d.components["T"].data_type), "SQLBuilder": _sm8.MBuilder, "quote_name": lambda n: f'"{n}"',
+                    "isinstance": _sm8._isinstance}
+            try:
+                b8 = _I8(P, externals=ext8, max_steps=6000).call(f8, {"self": me8, "node": _sm8.MNode("UnaryOp", op=op8, operand=_sm8.MNode("VarID", value="DS_1")), "op": op8})
+            except (_R8, _U8) as e:
+                raise AnalysisError(f"R33.8: _visit_flow_stock outside the evaluator's language: {e}")
+            text8 = " ".join(str(c_) for c_ in getattr(b8, "cols", [str(b8)]))
+            overs = _re8.findall(r"OVER\s*\(((?:[^()]|\([^()]*\))*)\)", text8)
+            n8 += 1
+            rep.instance("R33.8", f"flow-stock/{op8}/{ttype}", nontrivial=True, sample={"operator": op8, "time_type": ttype, "over": overs[:1]})
+            if not overs:
+                raise AnalysisError(f"R33.8: no OVER clause found in the SQL generated for {op8}")
+            for ov in overs:
+                m8 = _re8.search(r"PARTITION BY(.*?)(ORDER BY(.*?))?(ROWS|RANGE|$)", ov, _re8.S)
+                part = set(_re8.findall(r'"([^"]+)"', m8.group(1))) if m8 else set()
+                order = set(_re8.findall(r'"([^"]+)"', (m8.group(3) or "") if m8 else (_re8.search(r"ORDER BY(.*)", ov, _re8.S) or [None, ""])[1]))
+                missing = {"Id_1", "Id_2", "T"} - (part | order)
+                if missing or "T" not in order:
+                    rep.add(Finding("R33.8", f"R33.8/flow-stock/{op8}/{ttype}", f8.module.rel, f8.node.lineno, f8.qualname,
+                                    f"{op8} over DS_1(Id_1, Id_2, T) as an operand of a statement whose result has the identifiers (Id_1, T): the window is `OVER ({' '.join(ov.split())[:120]})` - "
+                                    f"{sorted(missing) or 'the time identifier'} is neither a partition nor an order key, so datapoints of different series tie in the ordering and the running "
+                                    f"value depends on the physical order of the rows"))
+                    break
+    rep.floor("R33.8 flow/stock shapes", n8, 4)
     rep.assumptions = ["DuckDB's read_csv(columns=…, header=true) attaches the given names/types by position", "Python dicts preserve insertion order"]
